@@ -95,6 +95,13 @@ lines.append("* **C05-w3m1** (a stale \"nothing new arrived\" cache that is not 
 lines.append("  the flow, which C05 excludes by its statement (status 100 belongs to C11); C11 and C01 report it.")
 lines.append("* **C10-w3m2** (response bookkeeping only for the first response on a flow): needs a non-100 interim head (103) that the")
 lines.append("  caller keeps polling past; C10 sends none. C15's unsolicited-100 case reports it (`C15.no_redirect_state`).")
+lines.append("* **C06-w3m1** (the body framing of the first non-100 head sticks for the whole call): needs a 102 / 103 head followed by")
+lines.append("  the final head on the same flow, with the caller polling on although the flow is already ready to advance after the")
+lines.append("  1xx (this crate treats every 1xx other than 100 as a final, body-less response - which is what C06 states); no")
+lines.append("  scenario polls past readiness with a different head, and no check reports this change.")
+lines.append("* **C17-w3m1** (the coding-name comparison accepts prefixes, so `Transfer-Encoding: chunk` or an empty value counts as")
+lines.append("  chunked on the request side): C17 classifies a Transfer-Encoding other than chunked as DontCare (the statement does")
+lines.append("  not say whether such a request is valid); C04, C06 and C08 report the change.")
 sec = "\n".join(lines) + "\n"
 p = os.path.join(VERIF, "DESIGN.md")
 s = open(p).read()
